@@ -233,8 +233,8 @@ pub fn observe(ctx: &Ctx, c: &Case) -> Obs {
   let w = "w";
   sb.mkdir(w);
   let root_rel = match c.root_mode.as_str() {
-    "content" => format!("{w}/elsewhere/data"),
-    "base" => format!("{w}/basedir/{}", c.name),
+    "content" | "stdin-content" => format!("{w}/elsewhere/data"),
+    "base" | "stdin-base" => format!("{w}/basedir/{}", c.name),
     _ => format!("{w}/{}", c.name), // sibling of the torrent / relative to cwd for stdin
   };
   let materialise = |root_rel: &str, tree: &BTreeMap<String, Node>| {
@@ -279,6 +279,14 @@ pub fn observe(ctx: &Ctx, c: &Case) -> Obs {
   match c.root_mode.as_str() {
     "stdin" => {
       args.push("-".into());
+      cmd = Cmd::args_owned(&ctx.imdl, args).cwd(&sb.path(w)).stdin(&torrent);
+    }
+    "stdin-content" => {
+      args.extend(["-".to_string(), "--content".into(), "elsewhere/data".into()]);
+      cmd = Cmd::args_owned(&ctx.imdl, args).cwd(&sb.path(w)).stdin(&torrent);
+    }
+    "stdin-base" => {
+      args.extend(["-".to_string(), "--base-directory".into(), "basedir".into()]);
       cmd = Cmd::args_owned(&ctx.imdl, args).cwd(&sb.path(w)).stdin(&torrent);
     }
     "content" => {
@@ -447,7 +455,7 @@ pub fn gen_c03(rng: &mut Rng) -> Case {
   let single = rng.chance(1, 4);
   let md5 = rng.chance(1, 2);
   let mut c = honest(rng, p, single, md5);
-  c.root_mode = rng.pick(&["content", "content", "base", "sibling", "stdin"]).to_string();
+  c.root_mode = rng.pick(&["content", "content", "base", "sibling", "stdin", "stdin-content", "stdin-base"]).to_string();
   let mut label = String::from("honest");
   // torrent-side mutation
   match rng.below(14) {
@@ -575,7 +583,7 @@ pub fn gen_c03(rng: &mut Rng) -> Case {
     }
   }
   // a fully matching decoy at the *non-selected* default root
-  if c.root_mode == "content" && rng.chance(1, 2) {
+  if matches!(c.root_mode.as_str(), "content" | "base" | "stdin-content" | "stdin-base") && rng.chance(1, 2) {
     let honest_tree = c.tree.clone();
     for (k, n) in &honest_tree {
       if let Node::File(b) = n {
@@ -813,7 +821,8 @@ fn history(ctx: &Ctx, seed: u64) -> Report {
   let single = rng.chance(1, 4);
   let md5 = rng.chance(1, 2);
   let rename = rng.chance(1, 3);
-  let names = ["a", "b", "c/d", "c/e", "f/g/h", "z"];
+  // ordinary names, and names that merely look special: dots in odd places, other platforms' separators, spaces, unicode
+  let names = ["a", "b", "c/d", "c/e", "f/g/h", "z", "to be continued...txt", "disc 1..2/x", "..rc", "v1..", "a\\b", "x y/ü", "-dash", "~tilde", "%41", "trailing.", "CON", "日本/語"];
   let mut orig: Vec<(String, Vec<u8>)> = Vec::new();
   let unit = p.min(64);
   if single {
